@@ -41,3 +41,12 @@ def collect(P):
         P.broken.append({"pin": "WRITER_DELETE_BREAK_AT_TARGET", "file": "src/indexer/index_writer.rs", "why": "comparison of compute_deleted_bitset not found"})
     else:
         P.items.append(("WRITER_DELETE_BREAK_AT_TARGET", "N", 1 if m.group(1) == ">=" else 0, "src/indexer/index_writer.rs", text.count("\n", 0, m.start()) + 1))
+
+    # SegmentUpdater::save_metas: the whole body is guarded by `if self.is_alive() {` (a task of a killed updater must not
+    # rewrite meta.json: Writer.v save_metas_guarded / event EStaleSave; WriterObs.v save_metas_guard_pinned)
+    text = P.src("src/indexer/segment_updater.rs")
+    m = re.search(r"pub fn save_metas\(\s*&self,[^{]*\{\s*(if self\.is_alive\(\) \{)?", text or "")
+    if not m:
+        P.broken.append({"pin": "WRITER_SAVE_METAS_GUARDED", "file": "src/indexer/segment_updater.rs", "why": "SegmentUpdater::save_metas not found"})
+    else:
+        P.items.append(("WRITER_SAVE_METAS_GUARDED", "N", 1 if m.group(1) else 0, "src/indexer/segment_updater.rs", text.count("\n", 0, m.end()) + 1))
